@@ -207,6 +207,36 @@ class FuncEffects(ast.NodeVisitor):
 
     def run(self):
         self.block(self.fi.node.body)
+        # decorators defined in the package wrap this function: what their inner functions do happens on every call of it
+        for d in self.fi.node.decorator_list:
+            name = dotted(d.func if isinstance(d, ast.Call) else d)
+            q = self.program.qualify(self.module, name) if name else None
+            D = self.program.functions.get(q)
+            if D is not None and D.cls is None:
+                self._decorator_effects(D)
+
+    def _decorator_effects(self, D):
+        saved = dict(self.env)
+        # state created when the decorator runs (once, at import) and captured by the wrapper persists across calls
+        for st in D.node.body:
+            if isinstance(st, ast.Assign):
+                for tg in st.targets:
+                    if isinstance(tg, ast.Name):
+                        g = f"GLOBAL:closure:{D.qualname}.{tg.id}"
+                        self.env[tg.id] = AV({(g, 0)}, {g})
+        mine = AV(frozenset().union(*[self.env[p].own for p in self.params if p in self.env]) if self.params else (),
+                  frozenset().union(*[self.env[p].elem for p in self.params if p in self.env]) if self.params else ())
+        for n in ast.walk(D.node):
+            if isinstance(n, (ast.FunctionDef, ast.AsyncFunctionDef)) and n is not D.node:
+                a = n.args
+                for prm in a.posonlyargs + a.args + a.kwonlyargs:
+                    self.env[prm.arg] = mine
+                if a.vararg:
+                    self.env[a.vararg.arg] = AV((), mine.all())
+                if a.kwarg:
+                    self.env[a.kwarg.arg] = AV((), mine.all())
+                self.block(n.body)
+        self.env = saved
 
     # ------------------------------------------------------------------ effects
     def effect(self, node, kind, target, roots):
